@@ -135,6 +135,9 @@ fn gen_location(rng: &mut Rng) -> (Option<Vec<u8>>, &'static str) {
 }
 
 pub fn generate_c09(seed: u64, tier: &str, sink: &mut Sink) {
+    // "ends where the server pointed": the request of every hop names that hop's URL — target AND Host (the
+    // chains of C10, whose oracle reads every request; seed C09-seed13)
+    generate_chains(seed ^ 0xC09C, if tier == "thorough" { 400 } else { 40 }, false, false, sink);
     let mut rng = Rng::new(seed ^ 0xC09);
     let n = if tier == "thorough" { 30_000 } else { 2500 };
     for _ in 0..n {
@@ -466,19 +469,33 @@ fn real_socket_chains(sink: &mut Sink) {
 /// proxy configuration and simple bodies (used by C11: the proxy decision as it is *used* by send)
 pub fn generate_chains(seed: u64, n: usize, proxy_focus: bool, tunnel_focus: bool, sink: &mut Sink) {
     let mut rng = Rng::new(seed);
-    for _ in 0..n {
+    // the first chains are fixed: one redirect between two URLs that differ in exactly one part of the origin —
+    // the scheme (same host, same effective port: `http://a.test:443` → `https://a.test`), the port (same host), the
+    // spelling of the port — so that whatever is rebuilt "only when X changes" meets a change of everything else
+    // (seeds C08-seed13, C09-seed13: the Host field rebuilt only when host / host and effective port change)
+    let forced: [(&str, &str); 8] = [
+        ("http://a.test:443/x", "https://a.test/y"),
+        ("https://b.test:80/x", "http://b.test/y"),
+        ("http://a.test/one", "http://a.test:81/five"),
+        ("http://a.test:81/five", "http://a.test/one"),
+        ("http://a.test/one", "https://a.test/one"),
+        ("https://c.test/three", "https://c.test:8443/three"),
+        ("http://b.test:8080/two?x=1", "http://b.test:80/two"),
+        ("https://[::1]:8443/six", "http://[::1]:8443/six"),
+    ];
+    for case_no in 0..n {
         let body = if proxy_focus { BodyR::Text("p".into()) } else { gen_body(&mut rng) };
-        let nhops = rng.range(2, 4) as usize;
+        let nhops = if case_no < forced.len() { 2 } else { rng.range(2, 4) as usize };
         // chains that change host, port, scheme, and proxy applicability
         let targets = ["http://a.test/one", "http://b.test:8080/two?x=1", "https://c.test/three", "http://noproxy.test/four", "http://a.test:81/five", "https://[::1]:8443/six"];
-        let start = rng.pick(&targets).to_string();
+        let start = if case_no < forced.len() { forced[case_no].0.to_string() } else { rng.pick(&targets).to_string() };
         let mut hops: Vec<(u16, Option<Vec<u8>>)> = vec![];
         let mut urls = vec![start.clone()];
         for i in 0..nhops {
             if i == nhops - 1 {
                 hops.push((200, None));
             } else {
-                let next = rng.pick(&targets).to_string();
+                let next = if case_no < forced.len() { forced[case_no].1.to_string() } else { rng.pick(&targets).to_string() };
                 // how the server spells the Location: absolute, or a network-path reference (`//host:port/p`,
                 // same scheme) — both change the authority
                 let cur_scheme = urls.last().unwrap().split("://").next().unwrap().to_string();
